@@ -716,6 +716,11 @@ def explain(w):
         base = 1 + len(spec.pos)
         if n == base + 1 and type(w[base]) is bytes:
             payload_mode = True
+        elif n == base + 2 and type(w[base]) is bytes and spec.name != "PUBLISH":
+            # (PUBLISH documents pass-through of pre-serialized str/bytes Arguments: latitude below)
+            # the payload-transparency form has exactly one element after the fixed positions: a
+            # binary payload followed by a further element is a wrong element count
+            bad.append(("length", "count", "binary payload followed by a further element"))
         else:
             if n > base:
                 a = w[base]
